@@ -151,20 +151,21 @@ def run(chk, repo, tier):
             if key == 'convolvable.jitter':
                 tfa = tfs[0]
                 arg = tfa[2][0]
-                freq = [a for a in arg.atoms(deep=False) if is_freq(a)]
-                ok = tfa[1] == 'exp' and len(freq) == 1
-                if ok:
-                    rho2 = Poly.atom(freq[0]) ** (2 / dict(arg.terms[0][0])[freq[0]]) if False else None
-                    e = dict(arg.terms[0][0])[freq[0]]
-                    rho_sq = Poly.atom(freq[0]).pow(e)        # rho**2 in whatever form it is written
-                    want = -2 * nf.PI ** 2 * (S('scale') / S('pixelscale') * S('oversample')) ** 2 * rho_sq
-                    # rho^2 must be xx^2 + yy^2
-                    pa = freq[0]
-                    rho_ok = pa[0] == 'poly' and e == 1 and len(pa[1].terms) == 2 and all(
-                        len(m) == 1 and m[0][1] == 2 and is_freq(m[0][0]) and c == 1 for m, c in pa[1].terms)
-                    ok = arg == want and rho_ok
+                # element [i, j] of the exponent, however the frequency grid is built (meshgrid, broadcasting, helpers)
+                from ..elem import ElemEval, Unsupported
+                i_, j_ = S('@i'), S('@j')
+                ok, det_e = None, ''
+                try:
+                    el = ElemEval(Shapes(decl)).at(arg, (i_, j_))
+                    fr = nf.app('fftfreq_at', ish[0], i_)
+                    fc = nf.app('fftfreq_at', ish[1], j_)
+                    want = -2 * nf.PI ** 2 * (S('scale') / S('pixelscale') * S('oversample')) ** 2 * (fr ** 2 + fc ** 2)
+                    ok = tfa[1] == 'exp' and len(tfs) == 1 and el == want
+                    det_e = f'exponent[i, j] = {fmt(el)[:220]}'
+                except Unsupported as ex:
+                    det_e = f'undecided: exponent not understood element-wise ({ex})'
                 chk.ob('C19-e', 'N-const', key, 'Gaussian MTF exp(-2*pi^2*sigma^2*rho^2), rho^2 = xx^2 + yy^2', ok,
-                       f'argument {fmt(arg)[:220]}', f.loc(p.node))
+                       det_e or f'argument {fmt(arg)[:220]}', f.loc(p.node))
             if key != 'detector.pixel':
                 # C19-f: ret = out * sum(img)/sum(out)
                 out = absatom
